@@ -84,7 +84,9 @@ def write_cfg(path, spec="Spec", constants=None, invariants=(), properties=(), v
     if constants:
         lines.append("CONSTANTS")
         for k, v in constants.items():
-            if isinstance(v, str):
+            if type(v).__name__ == "Raw":
+                v = str(v)
+            elif isinstance(v, str):
                 v = json.dumps(v)
             elif isinstance(v, bool):
                 v = "TRUE" if v else "FALSE"
